@@ -29,6 +29,10 @@ type Faults struct {
 	RangeIgnore, Range416, RangeWrongStart, RangeNoHeader, RangeBadHeader, RangeWrongSuffix int
 	// storage PUT / verify
 	Put429, Put5xx, Put4xx, Put422, PutLostReply, Verify5xx, Verify4xx int
+	// PutNotStored: storage answers 200 but loses the bytes; only applied when
+	// a verify action was offered for that object (the server must then tell
+	// the truth in verify, so the client can and must notice)
+	PutNotStored int
 	// Retry-After flavours allowed (bit set): 1 absent, 2 seconds, 4 date, 8 garbage
 	RetryAfterKinds int
 	RetryAfterMax   int // seconds
@@ -146,12 +150,13 @@ type LFSServer struct {
 	// ExpiresInS > 0 adds expires_in to normal actions.
 	ExpiresInS int
 
-	Offers    map[string]*Offer
-	Batches   []*BatchRec
-	Deferrals []*Deferral
-	Fired     map[string]int
-	tokSeq    int
-	unkSeq    int
+	Offers        map[string]*Offer
+	Batches       []*BatchRec
+	Deferrals     []*Deferral
+	Fired         map[string]int
+	tokSeq        int
+	unkSeq        int
+	verifyOffered map[string]bool
 
 	// PutLog: oids stored by PUT, in order.
 	PutLog []string
@@ -309,6 +314,12 @@ func (s *LFSServer) newOffer(rel, oid string, size int64, batchSeq int, expired,
 			so, ao = h, h
 		}
 	}
+	if rel == "verify" {
+		if s.verifyOffered == nil {
+			s.verifyOffered = map[string]bool{}
+		}
+		s.verifyOffered[oid] = true
+	}
 	switch rel {
 	case "verify":
 		o.Href = ao + s.APIPrefix + "/verify/" + tok
@@ -463,6 +474,8 @@ func (s *LFSServer) serveBatch(rec *ReqRec) *Resp {
 				if s.C.Choose(okey, 2, "with-verify") == 1 {
 					v, _ := s.newOffer("verify", ro.Oid, ro.Size, len(s.Batches)-1, false, false)
 					bo.Actions["verify"] = v
+				} else if s.verifyOffered != nil {
+					delete(s.verifyOffered, ro.Oid)
 				}
 			}
 			return bo
@@ -776,6 +789,11 @@ func (s *LFSServer) servePut(rec *ReqRec, oid string) *Resp {
 	if s.hit(key, s.F.Put422, "put.422") {
 		r := JSONResp(422, errBody("unprocessable content type"))
 		r.Note = "put.422"
+		return r
+	}
+	if s.verifyOffered[oid] && s.hit(key, s.F.PutNotStored, "put.accepted-not-stored") {
+		r := NewResp(200)
+		r.Note = "put.200-but-not-stored"
 		return r
 	}
 	if OidOf(rec.Body) != oid {
